@@ -126,7 +126,7 @@ def corpus_sets():
 
 MISTAKES = ["dup_pub_fn", "dup_pub_const", "dup_pub_struct", "type_error_in_importer", "error_in_imported",
             "unresolved_import", "syntax_error", "undefined_in_two_modules", "cyclic_consts", "cyclic_structs",
-            "cyclic_struct_const", "multibyte_then_error", "triple_duplicate"]
+            "cyclic_struct_const", "multibyte_then_error", "triple_duplicate", "lints_in_two_files", "hex_separator_then_error"]
 
 
 def generated_set(seed, i):
@@ -183,6 +183,16 @@ def generated_set(seed, i):
             b = rng.randrange(sp.k)
             ch = rng.choice(["é", "€", "😀", "ß字"])
             files[sp.files[b]] += ('\nfn zz_mb()\n{\n\tprint!("h%sllo %s", zz_missing_one);\n\tvar q = "%s%s"; var r = zz_missing_two;\n}\n' % (ch, ch, ch, ch))
+        elif m == "lints_in_two_files":
+            # a lint located in an imported file (truncated literal in a pub
+            # constant) next to lints of the importer's own
+            b = rng.choice(tgts)
+            files[sp.files[b]] += "\npub const ZZ_WIDE: u8 = 256;\npub const ZZ_WIDER: i8 = 0x1_00;\n"
+            files[sp.files[a]] += ("\nfn zz_linty() -> i32\n{\n\tvar x = 33;\n\tvar t: u8 = 300;\n\tif x == 50\n\t{\n\t\tloop;\n\t}\n"
+                                   "\tif x == 100\n\t{\n\t\tloop;\n\t}\n\treturn: x\n}\n")
+        elif m == "hex_separator_then_error":
+            b = rng.randrange(sp.k)
+            files[sp.files[b]] += ("\nfn zz_hex()\n{\n\tvar q: u32 = 0x1_00_00 + zz_missing_hex;\n\tvar r: u8 = 0xf_f + 0b1_0 + 1_0 + zz_missing_bin;\n}\n")
         elif m == "triple_duplicate":
             b = rng.randrange(sp.k)
             files[sp.files[b]] += "\nfn zz_tri()\n{\n}\n\nfn zz_tri()\n{\n}\n\nfn zz_tri()\n{\n}\n\nconst ZZ_TRI: i32 = 1;\nconst ZZ_TRI: i32 = 2;\nconst ZZ_TRI: i32 = 3;\n"
@@ -199,7 +209,7 @@ def generated_set(seed, i):
 
 ZOO_EXPR = ["7", "x", "cast y", "cast y as i32", "y as i32", "|a|", "a[1]", "s.m", "&x", "zf(x)", "-x", "!b", "[1, 2]",
             "Zs { m: 2, arr: [0, 0, 0] }", '"text"', "'c'", "true", "x + y", "(x)", "a", "s", "p", "0xff", "1u64",
-            "x << y", "x & 1", "cast y == cast z", "s.arr[1]", "|:Zs|", "zf(cast y)"]
+            "x << y", "x & 1", "cast y == cast z", "s.arr[1]", "|:Zs|", "zf(cast y)", "0x1_00_00", "0b1_0_1u8 + nope"]
 ZOO_CTX = [
     "if %s == 1\n\t{\n\t\tx = 2;\n\t}",
     "if %s == cast b\n\t{\n\t\tx = 2;\n\t}",
